@@ -30,6 +30,8 @@
   ModInverse succeeds off the multiples of p (p prime), MAC output of at least 20 bytes.
   (The one panic this proof found reachable, `encrypt: dst[:aes.BlockSize]` for a degenerate DH-commit
   exponent, was repaired in the Go code and the model; no tape hypothesis remains.)
+  `startAuthenticate_question_nul` / `_too_long` / `_bad_question` (repaired code): a question with a NUL
+  byte or too long for a TLV is refused with an error before anything happens (state unchanged).
 -/
 
 import Proofs.ConvData
@@ -114,5 +116,11 @@ theorem startAuthenticate_question_too_long : type_of% @Otr.startAuthenticate_qu
 
 theorem useExtraSymmetricKey_too_long : type_of% @Otr.useExtraSymmetricKey_too_long :=
   @Otr.useExtraSymmetricKey_too_long
+
+/-- repaired code: a question containing a NUL byte is refused up front, state unchanged -/
+theorem startAuthenticate_question_nul : type_of% @Otr.startAuthenticate_question_nul := @Otr.startAuthenticate_question_nul
+
+/-- both guards of StartAuthenticate at once -/
+theorem startAuthenticate_bad_question : type_of% @Otr.startAuthenticate_bad_question := @Otr.startAuthenticate_bad_question
 
 end Otr.C13
